@@ -22,6 +22,7 @@ type replayCase struct {
 	Race    bool // run the replay under the race detector; a reported race counts as reproduced
 }
 
+var replayRoot = "/verif/replays"
 var replayCases []replayCase
 var replayPrelude string
 
@@ -49,7 +50,7 @@ type ReplayOutcome struct {
 }
 
 func writeReplay(p *Prog, pd *PropDef, ob *Obligation, opts SolveOpts) (string, bool) {
-	dir := filepath.Join("/verif", "replays", pd.ID)
+	dir := filepath.Join(replayRoot, pd.ID)
 	os.MkdirAll(dir, 0o755)
 	base := sanitize(ob.Name)
 	if len(base) > 120 {
